@@ -17,9 +17,9 @@ RULE = ('each case = one pattern (open+END_STREAM churn, open+RST churn, PRIORIT
         'closed ids, unknown frame types, unknown SETTINGS ids, CONTINUATION chains of 61..66 frames with/without END_HEADERS, '
         'header lists at MHLS-1/MHLS/MHLS+1 for several acknowledged MHLS values set alone or together with other settings, or after '
         '2-4 changes (values returning to earlier ones, some still unacknowledged), '
-        'refused pushes) of 2N frames on a server or client with a census at N and 2N; non-trivial = census compared or a '
+        'refused pushes, streams opened and left open against an acknowledged MAX_CONCURRENT_STREAMS of 0/1/3/20) of 2N frames on a server or client with a census at N and 2N; non-trivial = census compared or a '
         'limit boundary judged; distinct = (pattern, role, parameters)')
-MINIMA = {'non_opening_frames_checked': 100000, 'continuation_chains_judged': 300, 'header_list_limits_judged': 600, 'header_list_limits_judged_after_several_changes': 200,
+MINIMA = {'open_flood_cases_judged': 60, 'open_flood_cases_with_limit_zero': 15, 'non_opening_frames_checked': 90000, 'continuation_chains_judged': 300, 'header_list_limits_judged': 600, 'header_list_limits_judged_after_several_changes': 200,
           'header_list_limits_judged_with_changes_in_flight': 50,
           'census_comparisons': 300, 'closed_stream_cap_reached': 100,
           'cases_with_unlimited_local_stream_limit': 60, 'cases_without_forced_cleanup': 200}
@@ -30,7 +30,7 @@ def n_cases(tier):
 
 
 PATTERNS = ['churn-es', 'churn-rst', 'priority-spray', 'wu-rst-closed', 'unknown-frames', 'unknown-settings', 'continuation',
-            'continuation', 'mhls', 'mhls', 'refused-push', 'mixed']
+            'continuation', 'mhls', 'mhls', 'refused-push', 'mixed', 'open-flood']
 
 
 def census(c):
@@ -80,6 +80,8 @@ def run_case(idx, rng, tier, rep):
         # reach the closed-stream memory cap for real: more than MAX_CLOSED_STREAMS streams opened and closed
         pat = rng.choice(['churn-es', 'churn-rst'])
         nframes = 2 ** 16 + 3000
+    if pat == 'open-flood':
+        return run_open_flood(rng, rep, e_client)
     if pat == 'continuation':
         return run_continuation(rng, rep, e_client)
     if pat == 'mhls':
@@ -182,7 +184,7 @@ def run_case(idx, rng, tier, rep):
             if not r.ok:
                 reconnect()
         elif p == 'unknown-settings':
-            r = non_opening(wire.build_settings([(rng.choice([0, 7, 9, rng.randrange(9, 2 ** 16)]), rng.randrange(2 ** 32))
+            r = non_opening(wire.build_settings([(rng.choice([0, 7, 9, 0x0a0a, 0x1a1a, rng.randrange(9, 2 ** 16)]), rng.randrange(2 ** 32))
                                                  for _ in range(rng.randrange(1, 5))]), 'SETTINGS')
             if r is None:
                 return
@@ -230,6 +232,14 @@ def run_case(idx, rng, tier, rep):
             if k in ('remote_settings_keys', 'remote_settings_depth') and pat in ('unknown-settings', 'mixed'):
                 if b[k] > 2 ** 16 + 16:
                     rep.violation('C27:settings-table-above-identifier-space', '%s = %d' % (k, b[k]), w)
+                # every received SETTINGS frame is acknowledged at once, so no identifier keeps more than its current value:
+                # values retained grow with the identifiers seen, not with the frames received
+                if k == 'remote_settings_depth' and b.get('remote_settings_keys') is not None:
+                    rep.count('settings_values_per_identifier_checked')
+                    if b[k] > b['remote_settings_keys'] + 8:
+                        rep.violation('C27:settings-values-queued-for-ever', '%d values retained for %d setting identifiers after %d frames' %
+                                      (b[k], b['remote_settings_keys'], nframes), w)
+                        return
                 continue
             if grow > 8 and grow > 0.05 * (nframes / 2):
                 rep.violation('C27:container-keeps-growing:%s' % k, '%s grew from %d to %d between frame %d and %d (pattern %s)' %
@@ -303,6 +313,53 @@ def run_continuation(rng, rep, e_client):
                 if maxbuf > limit:
                     rep.violation('C27:pending-header-buffer-above-cap', 'pending header buffer reached %d frames, cap %d' % (maxbuf, limit), w)
                     return
+
+
+def run_open_flood(rng, rep, e_client):
+    """The peer opens streams and leaves them open: never more of them are held than the MAX_CONCURRENT_STREAMS the endpoint
+    has announced and had acknowledged - 0 included, which means none at all."""
+    limit = rng.choice([0, 0, 1, 3, 20])
+    h = scen.Hostile(e_client, keep_log=False, e_settings={wire.S_MAX_CONCURRENT_STREAMS: limit})
+    w = {'pattern': 'open-flood', 'role': 'client' if e_client else 'server', 'acknowledged_local_limit': limit}
+    par = None
+    if e_client:
+        # streams the peer can open at a client are pushed ones: promised first, then started by their response headers
+        par, r = h.e_request()
+        if not r.ok:
+            return
+    held_max, refused, opened = 0, 0, 0
+    for i in range(rng.choice([5, 40, 300])):
+        if e_client:
+            pid = h.peer_next
+            h.peer_next += 2
+            r = h.send(wire.build_push_promise(par, pid, hb(REQ)))
+            if r.ok:
+                r = h.send(wire.build_headers(pid, hb(RESP)))
+        else:
+            sid = h.peer_next
+            h.peer_next += 2
+            r = h.send(wire.build_headers(sid, hb(REQ)))
+        if r.ok and not any(f.type == wire.RST_STREAM for f in r.frames):
+            opened += 1
+        else:
+            refused += 1
+        try:
+            live = h.c.open_inbound_streams
+        except Exception:      # noqa
+            live = None
+        if live is not None:
+            held_max = max(held_max, live)
+            if live > limit:
+                rep.violation('C27:more-peer-streams-held-than-the-acknowledged-limit:limit-%s' % ('0' if limit == 0 else 'n'),
+                              '%d streams opened by the peer are held open, MAX_CONCURRENT_STREAMS %d was announced and acknowledged' %
+                              (live, limit), w)
+                return
+        if not r.ok:
+            break
+    rep.count('open_flood_cases_judged')
+    if limit == 0:
+        rep.count('open_flood_cases_with_limit_zero')
+    rep.nontrivial(('open-flood', e_client, limit, opened, refused))
 
 
 def run_mhls_history(rng, rep, e_client):
